@@ -99,6 +99,12 @@ func (d *downloaderFEP) Download(ctx context.Context, fromBlock uint64, download
 		break
 	}
 
+	// fromBlock is the first block that has not been examined yet, while WaitForNewBlocks
+	// expects the last block already seen
+	if fromBlock > 0 {
+		fromBlock--
+	}
+
 	for {
 		select {
 		case <-ctx.Done():
